@@ -77,6 +77,8 @@ EXTRA = {
     "C06": " After all slices were read (with drawn warm-up reads) the partitions are requested a second time and the last one is compared again.",
     "C08": " 3-D shapes are drawn and EVERY slice is judged against its own values under the one shared transform; drawn warm-up reads precede the order request.",
     "C13": " 3-D shapes are drawn and every slice of the cube is judged against its own respondents; drawn warm-up reads.",
+    "C14": " 3-D shapes are drawn and the scale statistics of every slice of the cube are judged against that slice's respondents.",
+    "C15": " 3-D shapes are drawn and the shares of every slice are judged against that slice's respondents.",
     "C18": " set-reuse also hands the responses over as JSON text.",
     "C19": " Dictionaries that list several unmatched references before the live key, and several spellings of one item before another live item, are drawn as well.",
 }
